@@ -28,13 +28,13 @@ type c07Case struct {
 	Muts  []mutation     `json:"muts,omitempty"`
 	Spec  *gen.FrameSpec `json:"spec,omitempty"`
 	// repeat: Prefix + Unit x Count + Suffix, produced lazily
-	Prefix []byte `json:"prefix,omitempty"`
-	Unit   []byte `json:"unit,omitempty"`
-	Count  int    `json:"count,omitempty"`
-	Suffix []byte `json:"suffix,omitempty"`
-	Conc    int   `json:"conc"`
-	WriteTo bool  `json:"writeto"`
-	Sizes   []int `json:"sizes,omitempty"`
+	Prefix  []byte `json:"prefix,omitempty"`
+	Unit    []byte `json:"unit,omitempty"`
+	Count   int    `json:"count,omitempty"`
+	Suffix  []byte `json:"suffix,omitempty"`
+	Conc    int    `json:"conc"`
+	WriteTo bool   `json:"writeto"`
+	Sizes   []int  `json:"sizes,omitempty"`
 }
 
 func (c c07Case) input() []byte {
@@ -282,7 +282,16 @@ func drawC07(t *rapid.T) c07Case {
 		}
 	case k <= 8:
 		c.Kind = "hostile"
-		spec := gen.DrawFrameSpec(t, gen.FrameParams{Dependent: 1, MaxBlocks: 5, MaxBlockLen: 3000, Skips: true})
+		fp := gen.FrameParams{Dependent: 1, MaxBlocks: 5, MaxBlockLen: 3000, Skips: true}
+		if rapid.IntRange(0, 3).Draw(t, "bigblocks") == 0 {
+			fp = gen.FrameParams{Dependent: 1, MaxBlocks: 4, MaxBlockLen: 300 << 10, BigBlocks: true}
+		}
+		spec := gen.DrawFrameSpec(t, fp)
+		if rapid.IntRange(0, 2).Draw(t, "plainvalid") == 0 {
+			// no hostile field at all: a valid frame (possibly with large dependent blocks) must simply be read
+			c.Spec = &spec
+			break
+		}
 		// hostile field values
 		for i := 0; i < rapid.IntRange(1, 3).Draw(t, "nhostile"); i++ {
 			switch rapid.IntRange(0, 6).Draw(t, "hostile") {
